@@ -31,7 +31,7 @@ CHECK_DEADLOCK FALSE
 TRACE_CFG = 'CONSTANTS Dev = {}\nINIT TInit\nNEXT TNext\nCHECK_DEADLOCK FALSE\n'
 EX_BOUNDS = {'quick': [dict(N=4, MaxCons=3, MaxChain=2)], 'thorough': [dict(N=5, MaxCons=3, MaxChain=2)]}
 BIN_BOUNDS = {'quick': [dict(R=4, V=5, Same='FALSE'), dict(R=4, V=4, Same='TRUE')],
-              'thorough': [dict(R=5, V=6, Same='FALSE'), dict(R=4, V=5, Same='TRUE')]}
+              'thorough': [dict(R=5, V=5, Same='FALSE'), dict(R=4, V=5, Same='TRUE')]}
 MC_MODES = ['det-none', 'det-optimal', 'mk-none-1-2', 'mk-optimal-1-1', 'mk-none-0-1', 'mk-none-1-2-nf']
 ALL_MODES = list(fg.MODES)
 
@@ -167,7 +167,7 @@ def run(prop, tier, seed, replay=None):
             rep.exhaustive = True
             nrand = 0 if prop == 'C09' else (200 if tier == 'quick' else 2500)
             for k in range(nrand):
-                Ts = [treeio.random_tree(rnd, nmax=7 if tier == 'quick' else 10, maxcons=6, labels=('A', 'B', 'NP'),
+                Ts = [treeio.random_tree(rnd, nmax=7 if tier == 'quick' else 9, maxcons=6, labels=('A', 'B', 'NP'),
                                          tags=('T', 'A'), chain=0.3) for _ in range(rnd.randint(1, 3))]
                 if rnd.random() < 0.4:
                     Ts.append(Ts[0])
